@@ -136,3 +136,52 @@ def build (f : Filter) (ops : List Op) : Option (List (Id × Op)) :=
 def listIds (ops : List Op) : Option (List (Id × Op)) := build { only := none, excluded := none } ops
 
 end Oas3.Registry
+
+/-! ### identifiers of the types derived from one operation
+(`converter/operations.rs::convert`, `naming/operations.rs::generate_unique_{request,response}_name`,
+`converter/parameters.rs` nested structs, `converter/cache.rs::initialize_from_schemas`) -/
+namespace Oas3.Registry
+open Oas3.Naming
+
+/-- `to_rust_type_name` on ASCII names -/
+def typeName (s : List Char) : List Char := toRustTypeName Oas3.Gen.prelude Oas3.Client.idTr s
+
+/-- `initialize_from_schemas`: every component key is reserved raw AND as its Rust type name -/
+def reserved (keys : List (List Char)) : List (List Char) := keys.flatMap fun k => [k, typeName k]
+
+def sfxRequest : List Char := "Request".toList
+def sfxResponse : List Char := "Response".toList
+def sfxParams : List Char := "Params".toList
+def sfxEnum : List Char := "Enum".toList
+
+/-- request struct: `<Base>Request`, or `<Base>RequestParams` when the Rust form of the first is reserved
+(`StructToken::new`: used as is) -/
+def requestName (taken : List (List Char)) (id : Id) : List Char :=
+  let n := typeName id ++ sfxRequest
+  if taken.contains (typeName n) then n ++ sfxParams else n
+
+/-- response enum before the final conversion -/
+def responseRaw (taken : List (List Char)) (id : Id) : List Char :=
+  let n := typeName id ++ sfxResponse
+  if taken.contains (typeName n) then n ++ sfxEnum else n
+
+/-- response enum: `ResponseConverter::build_enum` converts the chosen name once more -/
+def responseName (taken : List (List Char)) (id : Id) : List Char := typeName (responseRaw taken id)
+
+/-- nested parameter structs `<Request>Query|Path|Header` -/
+def paramStructName (taken : List (List Char)) (id : Id) (sfx : List Char) : List Char := requestName taken id ++ sfx
+
+/-- all module-level identifiers the operations with these stable ids claim -/
+def opTypeNames (taken : List (List Char)) (ids : List Id) : List (List Char) :=
+  ids.flatMap fun i => [requestName taken i, responseName taken i]
+
+/-- the spec entities that end up under one identifier: (identifier, number of claimants) with ≥ 2 claimants,
+among the component schemas (`typeName key`) and the operations' request / response types -/
+def claims (keys : List (List Char)) (ids : List Id) : List (List Char) :=
+  keys.map typeName ++ opTypeNames (reserved keys) ids
+
+def contested (keys : List (List Char)) (ids : List Id) : List (List Char) :=
+  let c := claims keys ids
+  (c.filter fun n => (c.filter (· == n)).length > 1).eraseDups
+
+end Oas3.Registry
